@@ -314,6 +314,17 @@ struct PartAlpha
       Trot.push_back(t.rot);
       Ttm.push_back(t.tm);
     }
+    if constexpr (!I::vec) {
+      // tiny tangents with every coordinate non-zero (1e-13: below Eigen's double dummy_precision; 1e-6: below the float one):
+      // a part whose tangent is "almost zero" still contributes its (linear) share to ad, exp, the Jacobians
+      for (double mag : {1e-13, 1e-6}) {
+        Eigen::Matrix<S, I::Dof, 1> a;
+        for (int i = 0; i < I::Dof; ++i) a(i) = (S)((i % 2 ? -1 : 1) * (1 + 0.25 * i) * mag);
+        T.push_back(a);
+        Trot.push_back(mag);
+        Ttm.push_back(mag);
+      }
+    }
     if constexpr (I::vec) {
       // the Tn alphabet of bind.hpp only populates the first coordinate: add one vector with all coordinates
       // different and non-zero so that a shifted offset inside a vector part cannot go unnoticed
